@@ -526,3 +526,55 @@ Proof.
     destruct (tc_program_perm_funs (with_funs fs' p) (p_funs p) q' (Permutation_sym Hp) E') as (q'' & E'' & _).
     replace (with_funs (p_funs p) (with_funs fs' p)) with p in E'' by (destruct p; reflexivity). congruence.
 Qed.
+
+(* ---------------------------------------------------------------- statement order across kinds *)
+(* ParseString's expansion sorts the statements by kind: the program it builds depends only on the
+   sub-sequence of statements of each kind (so interleaving declarations of different kinds
+   differently changes nothing), the `exec` statements being numbered in THEIR relative order. *)
+Definition is_proc (s : stmt) : bool := match s with SProc _ _ _ => true | _ => false end.
+Definition is_fun (s : stmt) : bool := match s with SFun _ => true | _ => false end.
+Definition is_type (s : stmt) : bool := match s with SType _ _ => true | _ => false end.
+Definition is_assume (s : stmt) : bool := match s with SAssume _ => true | _ => false end.
+Definition is_exec (s : stmt) : bool := match s with SExec _ => true | _ => false end.
+
+Lemma expand1_app_kinds : forall l procs assumed funs tys,
+  expand1 l procs assumed funs tys =
+  match expand1 (filter is_proc l) procs [] [] [] with
+  | POk (procs', _, _, _) =>
+    match expand1 (filter is_assume l) [] assumed [] [], expand1 (filter is_fun l) [] [] funs [], expand1 (filter is_type l) [] [] [] tys with
+    | POk (_, assumed', _, _), POk (_, _, funs', _), POk (_, _, _, tys') => POk (procs', assumed', funs', tys')
+    | _, _, _ => PPanic "unreachable"
+    end
+  | PErr w => PErr w | PPanic w => PPanic w | PHang w => PHang w
+  end.
+Proof.
+  induction l as [|s l IH]; intros procs assumed funs tys; [reflexivity|].
+  destruct s; cbn [filter is_proc is_fun is_type is_assume expand1].
+  - (* proc *) destruct providers as [|p [|p2 ps]];
+      try (destruct (existsb _ _); [reflexivity|]); apply IH.
+  - apply IH.
+  - apply IH.
+  - apply IH.
+  - apply IH.
+Qed.
+
+Lemma expand_exec_filter : forall l funs count procs,
+  expand_exec l funs count procs = expand_exec (filter is_exec l) funs count procs.
+Proof.
+  induction l as [|s l IH]; intros funs count procs; [reflexivity|].
+  destruct s; cbn [filter is_exec expand_exec]; try apply IH.
+  destruct (get_function funs fname 0); [apply IH | reflexivity].
+Qed.
+
+Theorem expand_kinds l l' :
+  filter is_proc l = filter is_proc l' -> filter is_fun l = filter is_fun l' -> filter is_type l = filter is_type l' ->
+  filter is_assume l = filter is_assume l' -> filter is_exec l = filter is_exec l' ->
+  expand l = expand l'.
+Proof.
+  intros H1 H2 H3 H4 H5. unfold expand. rewrite (expand1_app_kinds l), (expand1_app_kinds l'), H1, H2, H3, H4.
+  destruct (expand1 (filter is_proc l') [] [] [] []) as [[[[? ?] ?] ?]| | |]; try reflexivity.
+  destruct (expand1 (filter is_assume l') [] [] [] []) as [[[[? ?] ?] ?]| | |],
+           (expand1 (filter is_fun l') [] [] [] []) as [[[[? ?] ?] ?]| | |],
+           (expand1 (filter is_type l') [] [] [] []) as [[[[? ?] ?] ?]| | |]; try reflexivity.
+  now rewrite (expand_exec_filter l), (expand_exec_filter l'), H5.
+Qed.
